@@ -38,6 +38,7 @@ const (
 	opCheck
 	opRestart
 	opOutage
+	opStall
 )
 
 type op struct {
@@ -69,7 +70,7 @@ type script struct {
 }
 
 var opNames = map[opKind]string{opMine: "mine", opBurst: "burst", opReorg: "reorg", opFinalise: "finalise", opSubErr: "suberr",
-	opFailWatch: "failwatch", opFailFinal: "failfinalised", opWait: "wait", opCheck: "check", opRestart: "restart", opOutage: "outage"}
+	opFailWatch: "failwatch", opFailFinal: "failfinalised", opWait: "wait", opCheck: "check", opRestart: "restart", opOutage: "outage", opStall: "stall"}
 
 func (o op) String() string {
 	switch o.K {
@@ -102,6 +103,8 @@ func (o op) String() string {
 		return fmt.Sprintf("restart(cfg#%d)", o.A)
 	case opOutage:
 		return fmt.Sprintf("outage(reorg depth=%d,desc=%v,new=%v; connection drops right after the notices; %d failed resubscribes; finalise(mode=%d,p=%d))", o.A, o.F1, o.Blocks, o.B, o.FinA-1, o.FinB)
+	case opStall:
+		return fmt.Sprintf("stall(%d failing finalised queries; once the client sits in its retry loop: reorg depth=%d,desc=%v,new=%v; finalise(mode=%d,p=%d))", o.B, o.A, o.F1, o.Blocks, o.FinA-1, o.FinB)
 	}
 	return "?"
 }
@@ -250,6 +253,10 @@ func genScript(rng *rand.Rand) *script {
 			d := 1 + uint64(rng.IntN(4))
 			s.Ops = append(s.Ops, op{K: opOutage, A: d, B: 1 + uint64(rng.IntN(3)), F1: rng.IntN(2) == 0, F2: rng.IntN(2) == 0,
 				Blocks: genBlocks(rng, int(d)+rng.IntN(3)), FinA: 1 + rng.IntN(4), FinB: rng.Uint64() >> 1})
+		case x < 775:
+			d := 1 + uint64(rng.IntN(4))
+			s.Ops = append(s.Ops, op{K: opStall, A: d, B: 3 + uint64(rng.IntN(4)), F1: rng.IntN(2) == 0, F2: rng.IntN(2) == 0,
+				Blocks: genBlocks(rng, int(d)+rng.IntN(3)), FinA: 1 + rng.IntN(4), FinB: rng.Uint64() >> 1})
 		case x < 925:
 			s.Ops = append(s.Ops, op{K: opWait, A: uint64(rng.IntN(5))})
 		case x < 975:
@@ -346,7 +353,31 @@ func (w *world) onHead(in *instance, h *core.L1Head) {
 	if !in.haveF {
 		w.violate("record:head-without-any-finalised-answer", fmt.Sprintf("head L2=%d recorded before the L1 node ever answered a finalised height", rec.L2))
 	}
-	x := best(in, in.lastF)
+	// logs whose removal notice has been delivered into the client's channel but not
+	// yet read. The scripted node never answers a finalised height at or above such a
+	// notice unless the client verifiably stopped reading its channel for an
+	// arbitrarily long time (resubscription loop / finalised-height retry loop) after
+	// the notice was delivered.
+	doomed := map[int]bool{}
+	cause := ""
+	for i := in.consumed; i < len(in.queue); i++ {
+		if it := in.queue[i]; it.removed {
+			doomed[it.e.ID] = true
+			if rec.ev == it.e {
+				if i < in.exposed {
+					cause = "a-subscription-outage"
+				} else {
+					cause = "a-stalled-finalised-height-query"
+				}
+			}
+		}
+	}
+	if rec.ev != nil && doomed[rec.ev.ID] && in.view[rec.ev.ID] != nil && !in.view[rec.ev.ID].removed && rec.ev.L1 <= in.lastF {
+		w.violate("record:head-is-a-log-whose-removal-notice-sat-unread-in-the-client-channel-across-"+cause,
+			fmt.Sprintf("recorded head L2=%d (%v, told finalised=%d) although the removal notice of that log had been delivered into the client's update channel before %s; "+
+				"the client asked for / used the finalised height without first draining the channel", rec.L2, rec.ev, in.lastF, cause))
+	}
+	x := best(in, in.lastF, doomed)
 	if x == nil || !sameHead(&rec, x.e) {
 		cls := classify(&rec, in, in.lastF, x)
 		exp := "none"
@@ -354,16 +385,6 @@ func (w *world) onHead(in *instance, h *core.L1Head) {
 			exp = x.e.String()
 		}
 		w.violate("record:"+cls, fmt.Sprintf("recorded head L2=%d (%v) while the node had told finalised=%d; designated log: %s", rec.L2, rec.ev, in.lastF, exp))
-	}
-	if rec.ev != nil {
-		for i := in.consumed; i < len(in.queue); i++ {
-			if it := in.queue[i]; it.removed && it.e == rec.ev {
-				w.violate("record:head-is-a-log-whose-removal-notice-sat-unread-in-the-client-channel",
-					fmt.Sprintf("recorded head L2=%d (%v, told finalised=%d) although the removal notice of that log had been delivered into the client's update channel before a subscription failure; "+
-						"after resubscribing the client polled the finalised height before draining the channel", rec.L2, rec.ev, in.lastF))
-				break
-			}
-		}
 	}
 	if st, err := w.storedHead(); err != nil || st == nil || st.L2 != rec.L2 || !st.Hash.Equal(&rec.Hash) || !st.Root.Equal(&rec.Root) {
 		w.violate("record:stored-head-differs-from-announced", fmt.Sprintf("OnNewL1Head announced L2=%d but Blockchain.L1Head() = %+v (err %v)", rec.L2, st, err))
@@ -617,7 +638,7 @@ func (w *world) checkpoint() {
 	}
 	w.r.Eval(1)
 	w.st("quiescent_exactness_checks", 1)
-	x := best(in, f)
+	x := best(in, f, nil)
 	st, err := w.storedHead()
 	if err != nil {
 		w.violate("quiescent:l1head-read-error", err.Error())
@@ -755,6 +776,33 @@ func (w *world) exec(o op) {
 			w.finalise(o.FinA-1, o.FinB)
 		}
 		w.mu.Unlock()
+		w.flush()
+	case opStall:
+		// the finalised-height query starts failing; while the client sits in its retry
+		// loop a reorg's notices reach its channel and L1 moves on and finalises.
+		w.mu.Lock()
+		in := w.inst
+		ok := in.subActive && in.watchOK >= 1 && in.sent == len(in.queue)
+		f0 := w.finalFailures
+		if ok {
+			w.failFinal += int(o.B)
+		}
+		w.mu.Unlock()
+		if ok && w.waitFor("stall", func() bool { return w.finalFailures > f0 || !in.subActive }) {
+			w.mu.Lock()
+			if in.subActive && w.failFinal > 0 && w.reorg(o.A, o.F1, o.F2, o.Blocks) && len(in.queue)-in.sent <= cap(in.sink)-len(in.sink) {
+				for ; in.sent < len(in.queue); in.sent++ {
+					it := in.queue[in.sent]
+					in.sink <- it.e.update(it.removed)
+				}
+				w.st("reorgs_delivered_while_client_sat_in_finalised_retry_loop", 1)
+				w.tr("reorg notices delivered while the client retries the finalised-height query")
+				w.mineBlock(0, false)
+				w.mineBlock(0, false)
+				w.finalise(o.FinA-1, o.FinB)
+			}
+			w.mu.Unlock()
+		}
 		w.flush()
 	case opCheck:
 		w.checkpoint()
@@ -914,7 +962,7 @@ func runCase(r *lib.Run, idx int) {
 
 func TestC17(t *testing.T) {
 	r := lib.Start("C17", "exploration")
-	n := r.N(1600, 60000)
+	n := r.N(6000, 150000)
 	r.Cases(n, 0, func(idx int) { runCase(r, idx) })
 	r.Assume("the scripted L1 node is well-behaved as the property's quantifier states: finalised height monotone and <= latest; logs reorged only above the finalised height; " +
 		"a log delivered to the running client is reorged only while a subscription exists and its removal notice is then delivered; all removal notices of a reorg precede the new branch's logs; " +
